@@ -508,5 +508,14 @@ PROPS["C06"]["rules"] = PROPS["C06"]["rules"] + [rules_conv.rule_nt_record_class
 PROPS["C03"]["rules"] = PROPS["C03"]["rules"] + [rules_sd.rule_shape_needs_rank]
 PROPS["C03"]["explanation"] += " (SHAPE0) the public SD functions read var->shape[k] only under a test that implies rank > 0 (scalars have no shape)."
 
+PROPS["C16"]["rules"] = PROPS["C16"]["rules"] + [rules_errors.rule_bool_result_vs_fail]
+PROPS["C16"]["explanation"] = PROPS["C16"]["explanation"].replace(" Not decided: whether", " (BOOLFAIL) no bool_t result of the XDR/netCDF layer is compared with FAIL (-1), which it can never equal. Not decided: whether")
+
+PROPS["C09"]["rules"] = PROPS["C09"]["rules"] + [rules_gr.rule_record_from_one_subrecord]
+PROPS["C09"]["explanation"] += " (ONEREC) each dimension record GRIupdatemeta encodes takes all its values from one sub-record (palette or image)."
+
+PROPS["C09"]["rules"] = PROPS["C09"]["rules"] + [rules_gr.rule_row_length_factor]
+PROPS["C09"]["explanation"] += " (ROWLEN) row indices and row steps are scaled into offsets by the row length xdim."
+
 NOT_APPLICABLE = {}
 
